@@ -131,11 +131,17 @@ func SetPool(p string) {
 	}
 }
 
-// HangGuard is the per-execution hang guard of free-mode runs.
-var HangGuard = 10 * time.Second
+// HangGuard is the per-execution hang guard of free-mode runs. It is deliberately
+// enormous compared to an evaluation (<1 ms): on a machine that is oversubscribed many
+// times over, a starved process must never be taken for a deadlocked one. A real
+// deadlock hangs for any guard.
+var HangGuard = 150 * time.Second
 
 // LeakGrace is how long free-mode runs wait for engine goroutines to terminate.
-var LeakGrace = 10 * time.Second
+var LeakGrace = 90 * time.Second
+
+// SlowRuns counts executions that needed more than 5 s of wall time (starvation).
+var SlowRuns int64
 
 // CountPaths makes RunEngine create a fresh engine with its own registry per case so
 // that the per-path query counter can be read (C08). Otherwise engines are cached per
@@ -268,6 +274,7 @@ func RunEngineCtx(ctx context.Context, c *Case, st *mstore.Store, withQuery func
 		done <- q.Exec(ctx)
 	}()
 	var res *promql.Result
+	t0 := time.Now()
 	select {
 	case res = <-done:
 	case <-time.After(HangGuard):
@@ -275,6 +282,9 @@ func RunEngineCtx(ctx context.Context, c *Case, st *mstore.Store, withQuery func
 		cancel()
 		out.Res.Err = "HANG"
 		return out
+	}
+	if time.Since(t0) > 5*time.Second {
+		SlowRuns++
 	}
 	st.OpenAtReturnSnapshot()
 	out.OpenAtReturn = st.OpenAtReturn
